@@ -1047,7 +1047,7 @@ class ApiProduction(CodecJob):
                 yield {"side": "enc", "L": L, "sym": list(range(L)), "fill": 0, "cuts": [cut], "methods": ("borrow", "copy")}
                 yield {"side": "dec", "L": L, "sym": list(range(L)), "fill": 0, "cuts": [cut], "methods": ("copy", "borrow")}
         # first-chunk boundary: 252
-        w = [0, 1, 250, 251, 252, 253, 254] if quick else [0, 1, 2, 249, 250, 251, 252, 253, 254, 255, 256]
+        w = [0, 1, 250, 251, 252, 253, 254] if quick else [0, 1, 250, 251, 252, 253, 254, 255, 256]
         for cut in ((130,) if quick else (130, 251, 253)):
             yield {"side": "enc", "L": 257, "sym": w, "fill": 0, "cuts": [cut], "methods": ("borrow", "copy")}
         yield {"side": "enc", "L": 252, "sym": [250, 251], "fill": 7, "cuts": [100], "methods": ("copy", "borrow")}
